@@ -832,3 +832,55 @@ def r08_8_field_exclusions_checked_on_the_complete_set(ctx: Ctx) -> RuleResult:
             f, n = outside[0]
             rr.fail(f.qual, f"{msg} is only raised from {f.name}, while fields are still being added: it sees one order of the two fields; the other order is accepted and fails at parse time", ctx.loc(f, n))
     return rr
+
+
+@rule("C08")
+def r08_9_no_overflow_from_parse(ctx: Ctx) -> RuleResult:
+    """Open-ended date / time arithmetic (plus_days, plus_months, instant arithmetic ...) raises OverflowError when its result leaves
+    the calendar.  Inside parsing such a call is only acceptable under a `try` that turns the overflow into a failure result:
+    every call from the text layer (parse region) to a function outside it from which an explicit `raise OverflowError` can
+    escape (exception-effect analysis) must be enclosed by a handler for OverflowError (or a base class of it)."""
+    rr = RuleResult("R08.9", "parse time: no call leaves the text layer for arithmetic that can raise OverflowError unless the overflow is caught and reported as a failure result", min_instances=15)
+    M = ctx.M
+    A = ExcAnalysis(ctx, _cfg())
+    region: dict[int, Func] = {}
+    for e in _entries(ctx, "parse"):
+        A.escapes(e)
+        for g in A.reachable(e):
+            region[id(g)] = g
+    for g in sorted(region.values(), key=lambda x: x.qual):
+        if not g.mod.rel.startswith(TEXT) or isinstance(g.node, ast.Lambda):
+            continue
+        for c in own_nodes(g.node):
+            if not isinstance(c, ast.Call):
+                continue
+            tg, how = ctx.R.callees(c, g, count=False)
+            if how != "resolved":
+                continue
+            outside = [t for t in tg if not t.mod.rel.startswith(TEXT)]
+            if not outside:
+                continue
+            rr.inst()
+            src = None
+            for t in outside:
+                esc = A.escapes(t)
+                it = esc.values() if isinstance(esc, dict) else esc
+                src = src or next((x for x in it if x.exc == "OverflowError" and x.kind == "raise"), None)
+            if src is None:
+                rr.ok()
+                continue
+            caught = False
+            p = getattr(c, "_parent", None)
+            ch: ast.AST = c
+            while p is not None and p is not g.node:
+                if isinstance(p, ast.Try) and any(ch is s or any(ch is x for x in ast.walk(s)) for s in p.body):
+                    for h in p.handlers:
+                        names = [unparse(x) for x in (h.type.elts if isinstance(h.type, ast.Tuple) else [h.type])] if h.type is not None else ["BaseException"]
+                        if any(n.split(".")[-1] in ("OverflowError", "ArithmeticError", "Exception", "BaseException") for n in names):
+                            caught = True
+                ch, p = p, getattr(p, "_parent", None)
+            if caught:
+                rr.ok({"fn": g.qual, "call": unparse(c)[:60], "overflow": "caught and converted"})
+            else:
+                rr.fail(g.qual, f"`{unparse(c)[:70]}` can raise OverflowError (from {src.fn}) and nothing catches it: the exception escapes parse instead of a failure result", ctx.loc(g, c))
+    return rr
